@@ -65,10 +65,10 @@ Proof. exact CallGraph.lock_order_acyclic. Qed.
 Print Assumptions c18_lock_order_acyclic.
 
 (* ---------------------------------------------------------------------------------------------- *)
-(* REGENERATED FROM THE SOURCE ON EVERY RUN (tools/gen -> Generated.g_code; Decisions.v): the decisions the model
+(* REGENERATED FROM THE SOURCE ON EVERY RUN (tools/gen -> Generated.g_code; DecBase.v, Dec*.v): the decisions the model
    takes at these points are the evaluations of the conditions the Go source has there, for all values of their
    variables. *)
-From GK Require Import GExpr Generated Decisions.
+From GK Require Import GExpr Generated DecBase DecIter.
 From Coq Require Import String.
 
 (* iterators: Next on a closed iterator answers false without touching the channels; Close is idempotent (Iter.v) *)
@@ -78,5 +78,5 @@ Theorem c18_iterator_closed_guards_is_source :
   | [SIf [] (GVar "it.closed") [SReturn []] []; SExpr (GCall "close" [GVar "it.next"]); SAssign [GVar "it.closed"] "=" [GVar "true"]] => True
   | _ => False
   end.
-Proof. exact Decisions.iterator_closed_guards. Qed.
+Proof. exact DecIter.iterator_closed_guards. Qed.
 Print Assumptions c18_iterator_closed_guards_is_source.
